@@ -40,6 +40,11 @@ def stepLine (line : String) : String :=
       | "geop", [a, b, c, d] => showB ((Range.mk a b).ge_op ⟨c, d⟩)
       | "minR", [a, b, c, d] => showR (Range.minR ⟨a, b⟩ ⟨c, d⟩)
       | "maxR", [a, b, c, d] => showR (Range.maxR ⟨a, b⟩ ⟨c, d⟩)
+      | "addSelf", [a, b] => showR ((Range.mk a b).addAssignRSelf)
+      | "subSelf", [a, b] => showR ((Range.mk a b).subAssignRSelf)
+      | "mulSelf", [a, b] => showR ((Range.mk a b).mulAssignRSelf)
+      | "andSelf", [a, b] => showR ((Range.mk a b).andAssignRSelf)
+      | "orSelf", [a, b] => showR ((Range.mk a b).orAssignRSelf)
       | "size", [a, b] => toString ((Range.mk a b).size)
       | "empty", [a, b] => showB ((Range.mk a b).empty)
       | _, _ => "bad-op"
